@@ -145,21 +145,79 @@ def unit_gallina(c, ob):
     return f"(MUCase {gobj(c['o'], attrs)} {md(c['p'])} {md(c['l'])} {merged})"
 
 
+def directed_readds():
+    """an object X = S0 is removed and comes back as S2 while its 'removed' is still in the error
+    queue (the removal fails twice), for every S0, S2 over two attributes (absent / 1 / 2), with
+    and without an older failed 'modified' of X queued first: under 'maximum' the pair is merged
+    into the 'modified' that carries the differences, or cancelled when there is none"""
+    import itertools
+    import random
+    import clicase
+    import srvcase
+    rng = random.Random(8)
+    base = None
+    while True:
+        base = clicase.gen_case(rng, {"shape": "flat", "retention": 0, "ntypes": 1, "p_unmapped_type": 0.0})
+        t = base["cfg"]["types"][0]
+        nk = [a for a in t["attrs"] if a not in t["pkey"]]
+        am = base["cdm"]["L" + t["name"]]["attrsmapping"]
+        if len(t["pkey"]) == 1 and len(nk) >= 2 and all("l_" + a in am for a in nk[:2]) and not t.get("secret") \
+                and not t.get("local") and not t.get("cacheonly"):
+            break
+    a, b = nk[:2]
+    pk = t["pkey"][0]
+    states = [{a: x, b: y} for x in (None, 1, 2) for y in (None, 1, 2)]
+
+    def tables(x):
+        rows = {2: {pk: 2, a: 1, b: 1}}
+        if x is not None:
+            rows[1] = dict({pk: 1}, **x)
+        return srvcase.to_remote_tables(base["cfg"], {t["name"]: rows})
+    out = []
+    for s0, s2 in itertools.product(states, states):
+        for older in (False, True):
+            c = copy.deepcopy(base)
+            polls = [tables(s0)]
+            n = 4
+            rule = {f"on_L{t['name']}_removed|1": 2}
+            if older:
+                sm = dict(s0, **{a: 3})
+                polls = [tables(sm), tables(s0)] if sm != s0 else [tables(s0)]
+                rule[f"on_L{t['name']}_modified|1"] = 3
+            polls += [tables(None), tables(s2)]
+            c["polls"] = polls
+            c["fkpolicy"], c["retention"] = "disabled", 0
+            nev = 2 + (1 if older else 0) + 2
+            its = [{"limit": 2 + k, "now": 10 * k, "restart": False, "faults": True} for k in range(2, nev + 1)]
+            its += [{"limit": 2 + nev, "now": 100 + 10 * j, "restart": False, "faults": False} for j in range(4)]
+            c["sessions"] = {"iters": its, "outcomes": ["ok"] * 60, "fail_rule": rule}
+            c["sseed"], c["session_opts"] = 0, {}
+            c["directed"] = True
+            out.append(c)
+    return out
+
+
 def run(ctx):
     base = cliprops.gen_cases(ctx, ctx.n(80, 2500), {"retention": 0, "remediation": "disabled"},
                               {"p_fail": 0.45, "p_partial": 0.2})
+    # the same with the trashbin on, and the directed remove / re-add histories
+    base = base + cliprops.gen_cases(ctx, ctx.n(30, 1200), {"retention": 1, "remediation": "disabled"},
+                                     {"p_fail": 0.45, "p_partial": 0.2})
+    base = directed_readds() + base
     cases = []
     for c in base:
         for pol in ("disabled", "conservative", "maximum"):
             c2 = copy.deepcopy(c)
             c2["remediation"] = pol
             cases.append(c2)
-    res, failing = cliprops.run_and_eval(ctx, cases, "c07_healed_case", "c08")
+    res, failing = cliprops.run_and_eval(ctx, cases, "c08_healed_case", "c08")
     violations, corr = [], []
     for i, (c_ok, o_ok) in sorted(failing.items()):
         rep = {"replay_kind": "client_case", "case": cliprops.common.enc(cases[i])}
         if not o_ok:
-            sig = "F5-readd-while-removal-queued" if c07.lifecycle_has_readd(cases[i], res[i][0]) else None
+            sig = "F5-readd-while-removal-queued" if c07.f5(cases[i], res[i][0]) else None
+            if sig is None and cases[i]["retention"] and c07.recycled_from_queue(res[i][0]):
+                sig = "F30-recycle-retried-from-error-queue"
             violations.append({"sig": sig, "what": f"under policy {cases[i]['remediation']} the drained client differs from the failure-free state (case {i})", **rep})
         elif not c_ok:
             corr.append({"what": f"corr_client (remediation {cases[i]['remediation']}): client model != GenericClient on case {i}", **rep})
@@ -168,11 +226,11 @@ def run(ctx):
         finals = []
         for i in (j, j + 1, j + 2):
             last = res[i][0]["iters"][-1]
-            finals.append(cliprops.common.canon([last["localdata"], last["remotedata"]]))
+            finals.append(cliprops.common.canon(last["localdata"]))   # the property speaks of target and local data
         drained = all(not res[i][0]["iters"][-1]["queue"] for i in (j, j + 1, j + 2))
-        if drained and len(set(finals)) > 1 and not c07.lifecycle_has_readd(cases[j], res[j][0]):
+        if drained and len(set(finals)) > 1 and not any(c07.f5(cases[x], res[x][0]) for x in (j, j + 1, j + 2)):
             violations.append({"sig": None, "replay_kind": "client_case", "case": cliprops.common.enc(cases[j]),
-                               "what": f"final local/remote data differ between remediation policies on history {j // 3}"})
+                               "what": f"final local data differ between remediation policies on history {j // 3}"})
     # unit level: the real ErrorQueue merges every consistent pair of 'modified' events
     from concurrent.futures import ProcessPoolExecutor
     import srvprops
@@ -212,4 +270,4 @@ def run(ctx):
 
 
 def replay(obj):
-    return cliprops.replay_case(obj, "c07_healed_case")
+    return cliprops.replay_case(obj, "c08_healed_case")
